@@ -100,7 +100,12 @@ namespace ArcSt
 /-- `arc::State::last_dependent_access` -/
 def lastDependentAccess (s : ArcSt) : Action → Option Access
   | .arcInc => s.lastInspect
-  | .arcDec => s.lastDec
+  | .arcDec =>
+    -- the later of the last decrement and the last inspection (repair of finding F10)
+    match s.lastDec, s.lastInspect with
+    | some d, some i => if i.pathId > d.pathId then some i else some d
+    | some d, none => some d
+    | none, i => i
   | .arcInspect =>
     match s.lastMod with
     | some .inc => s.lastInc
